@@ -25,6 +25,7 @@ import (
 func HarnessC35QueueSched() {
 	q := zz35NewQ(verifrt.Param("NCID", 2))
 	q.enabled = false // no hook injection: the scheduler interleaves
+	q.quiet = true
 	calls := verifrt.Param("CALLS", 1)
 	ncid := verifrt.Param("CIDS", 1)
 	var mu sync.Mutex
@@ -37,7 +38,7 @@ func HarnessC35QueueSched() {
 				mu.Lock()
 				i := 0
 				if ncid > 1 {
-					i = verifrt.NondetRange("call_cid", 0, ncid-1)
+					i = verifrt.NondetRange([]string{"request_cid", "retract_cid"}[g], 0, ncid-1)
 				}
 				if g == 0 {
 					q.producerCallOn(i, verifrt.NondetRange("request_kind", 0, 2))
